@@ -13,6 +13,52 @@ def enginex(prop, qs=16, ts=16, qb=150, tb=1500):
     }
 
 
+def schedx(prop, qb=150, tb=1500):
+    return {
+        "name": "schedx", "dir": "schedx", "variant": "verif",
+        "cmd": ["{build}/harness/schedx/schedx", "--prop", prop, "--tier", "{tier}", "--shard", "{shard}", "--nshards", "{nshards}",
+                "--out", "{out}", "--seed", "{seed}", "--budget", "{budget}"],
+        "shards": {"quick": 16, "thorough": 16},
+        "budget": {"quick": qb, "thorough": tb},
+    }
+
+
+def enumx(prop, qb=60, tb=600):
+    return {
+        "name": "enumx", "dir": "enumx", "variant": "verif",
+        "cmd": ["{build}/harness/enumx/enumx", "--prop", prop, "--tier", "{tier}", "--shard", "{shard}", "--nshards", "{nshards}",
+                "--out", "{out}", "--seed", "{seed}", "--budget", "{budget}"],
+        "shards": {"quick": 16, "thorough": 16},
+        "budget": {"quick": qb, "thorough": tb},
+    }
+
+
+def ninjax(prop="C17"):
+    return {
+        "name": "ninjax", "dir": "ninjax", "variant": "verif",
+        "cmd": ["/usr/bin/python3", "{root}/harness/ninjax/ninjax.py", "--prop", prop, "--tier", "{tier}", "--shard", "{shard}",
+                "--nshards", "{nshards}", "--out", "{out}", "--seed", "{seed}", "--budget", "{budget}"],
+        "shards": {"quick": 16, "thorough": 16},
+        "budget": {"quick": 150, "thorough": 2400},
+    }
+
+
+def parsex(prop, qb=150, tb=1500):
+    return {
+        "name": "parsex", "dir": "parsex", "variant": "asan",
+        "cmd": ["{build}/harness/parsex/parsex", "--prop", prop, "--tier", "{tier}", "--shard", "{shard}", "--nshards", "{nshards}",
+                "--out", "{out}", "--seed", "{seed}", "--budget", "{budget}"],
+        "shards": {"quick": 16, "thorough": 16},
+        "budget": {"quick": qb, "thorough": tb},
+    }
+
+
+A_SCHED = [
+    "sequential consistency; atomics are not scheduling points (every conflicting pair of atomic accesses in these bodies is separated by a mutex operation)",
+    "data races as such are invisible to a serialising scheduler",
+    "timed condition waits fire as a scheduler choice that costs one deviation",
+]
+
 A_ENGINE = [
     "rule programs are drawn from the grammar of DESIGN.md §4.1 (<=4 derived keys, <=2 start requests, one value-dependent "
     "request, one discovered leaf); worlds outside it are not covered",
@@ -25,7 +71,14 @@ CHECKS = {
     "C01": {"level": "model_checking", "parts": [enginex("C01")], "assumptions": A_ENGINE},
     "C02": {"level": "model_checking", "parts": [enginex("C02")], "assumptions": A_ENGINE},
     "C03": {"level": "model_checking", "parts": [enginex("C03")], "assumptions": A_ENGINE},
-    "C05": {"level": "model_checking", "parts": [enginex("C05")], "assumptions": A_ENGINE},
-    "C06": {"level": "model_checking", "parts": [enginex("C06")], "assumptions": A_ENGINE},
+    "C05": {"level": "model_checking", "parts": [enginex("C05"), schedx("C05")], "assumptions": A_ENGINE + A_SCHED},
+    "C06": {"level": "model_checking", "parts": [enginex("C06"), schedx("C06")], "assumptions": A_ENGINE + A_SCHED},
     "C07": {"level": "model_checking", "parts": [enginex("C07")], "assumptions": A_ENGINE},
+    "C11": {"level": "exploration", "parts": [parsex("C11")], "assumptions": []},
+    "C13": {"level": "exploration", "parts": [enumx("C13")], "assumptions": []},
+    "C14": {"level": "exploration", "parts": [enumx("C14")], "assumptions": []},
+    "C15": {"level": "exploration", "parts": [enumx("C15")], "assumptions": []},
+    "C16": {"level": "model_checking", "parts": [schedx("C16")], "assumptions": A_SCHED},
+    "C17": {"level": "exploration", "parts": [ninjax()], "assumptions": []},
+    "C19": {"level": "exploration", "parts": [parsex("C19")], "assumptions": []},
 }
